@@ -2,7 +2,7 @@
    Full-strength statement: C10 (see DESIGN.md section 7) (Cluster/Statements.v). Proved so far: the theorems below; what is
    not yet proved is decided on every run by the lock-step co-simulation (model = implementation on every
    explored schedule) together with the monitors run on the implementation's own observations. *)
-From RaftV Require Import Cluster.Statements Proofs.RVSpec Proofs.AESpec Proofs.SnapSpec Proofs.ReadSpec.
+From RaftV Require Import Cluster.Statements Proofs.RVSpec Proofs.AESpec Proofs.SnapSpec Proofs.ReadSpec Proofs.CommitSpec.
 Open Scope N_scope.
 
 (* becomeFollower (every term change, every step-down) never touches the commit index, the applied index, the
@@ -34,3 +34,17 @@ Theorem C10_local_snapshot_label : forall n s,
    exists e, log_get (n_log n) (n_applied n) = Some e /\ s_index s = e_index e /\ s_term s = e_term e).
 Proof. exact lp_snapshot_label. Qed.
 Print Assumptions C10_local_snapshot_label.
+
+(* One iteration of the apply loop, for every node state: the applied index advances by exactly one; the state machine
+   receives exactly the payload of the log entry at that index - nothing for a no-op or configuration entry - and the
+   apply history records that entry's own index, term and payload. *)
+Theorem C10_apply_one_entry : forall now n e,
+  log_get (n_log n) (n_applied n + 1) = Some e ->
+  let n' := lp_apply_one now n in
+  n_applied n' = n_applied n + 1 /\
+  match e_kind e with
+  | KOp p => n_fsm n' = n_fsm n ++ [p] /\ n_applies n' = n_applies n ++ [(e_index e, e_term e, p)]
+  | _ => n_fsm n' = n_fsm n /\ n_applies n' = n_applies n
+  end.
+Proof. exact lp_apply_one_spec. Qed.
+Print Assumptions C10_apply_one_entry.
